@@ -1085,6 +1085,67 @@ func gapSet(n, sp int, gap uint64, where int) []pdf.Integer {
 	return ks
 }
 
+// intCorpus: sets with keys at the ends of int64 and with neighbours at every extreme distance;
+// grid = every gap size at the first, an inner and the last position of a leaf and of an
+// intermediate node (so that the two keys are also the /Limits of neighbouring nodes)
+func intCorpus(thorough bool) (small, grid [][]pdf.Integer) {
+	const lo, hi = math.MinInt64, math.MaxInt64
+	small = [][]pdf.Integer{
+		{lo}, {hi}, {-1, hi}, {lo, 0}, {lo, hi}, {lo, -1, hi}, {lo, 0, hi}, {lo, lo + 1}, {hi - 1, hi},
+		{lo + 1, -1, 0, 1, hi}, {lo, lo + 1, -1, 0, 1, hi - 1, hi}, {-1 << 31, 1<<31 - 1}, {-1<<31 - 1, 1 << 31}, {-1 << 32, 1 << 32},
+		{0, 1 << 31}, {0, 1 << 32}, {-1 << 62, 1 << 62}, {-1<<62 - 1, 1 << 62}, {-1 << 62, 1<<62 + 1},
+	}
+	shapes := [][2]int{{2, 1}, {3, 1}, {3, 2}, {64, 63}, {65, 64}, {128, 64}, {129, 64}, {129, 128}, {130, 65}, {200, 127}}
+	bigShapes := [][2]int{{4033, 4032}, {4097, 4096}, {4161, 4096}}
+	if thorough {
+		bigShapes = append(bigShapes, [2]int{4097, 64}, [2]int{4097, 4032}, [2]int{8193, 8192}, [2]int{8256, 4096})
+	}
+	for gi, g := range bigGaps {
+		for si, sh := range shapes {
+			grid = append(grid, gapSet(sh[0], sh[1], g, (gi+si)%3))
+		}
+	}
+	for gi, g := range []uint64{1 << 32, 1<<63 - 1, 1 << 63, math.MaxUint64} {
+		for si, sh := range bigShapes {
+			grid = append(grid, gapSet(sh[0], sh[1], g, (gi+si)%3))
+		}
+	}
+	return small, grid
+}
+
+// nameCorpus: the empty name, names that differ only in their last byte (00 against FF), names that
+// are prefixes of each other, long common prefixes
+func nameCorpus(thorough bool) (small, grid [][]pdf.Name) {
+	rep := func(b byte, n int) pdf.Name { return pdf.Name(strings.Repeat(string([]byte{b}), n)) }
+	small = [][]pdf.Name{
+		{""}, {"", "\x00"}, {"", "\xff"}, {"\x00", "\xff"}, {"", "\x00", "\x00\x00", "\x00\xff", "\xff", "\xff\x00", "\xff\xff"},
+		{"a\x00", "a\xff"}, {"a", "a\x00", "a\xff", "b"}, {"a\xff", "b"}, {"a\xff\xff", "b\x00"}, {"\x7f", "\x80"}, {"\x7f\xff", "\x80\x00"},
+		{rep(0xff, 300), rep(0xff, 301)}, {rep(0, 300), rep(0, 301)}, {rep('x', 255) + "\x00", rep('x', 255) + "\xff"},
+		{rep('x', 256), rep('x', 256) + "\x00", rep('x', 256) + "\xff", rep('x', 257)},
+	}
+	// n names with one common prefix that differ in a fixed-width tail over {00,FF}; the step from
+	// key sp-1 to key sp is the one from ...FF to a longer common prefix
+	for _, pl := range []int{0, 1, 64, 255, 256, 1000} {
+		for _, n := range []int{2, 3, 64, 65, 129} {
+			var ks []pdf.Name
+			pre := rep(0xff, pl)
+			for i := 0; i < n; i++ {
+				b := []byte(pre)
+				for bit := 7; bit >= 0; bit-- {
+					if i>>bit&1 == 1 {
+						b = append(b, 0xff)
+					} else {
+						b = append(b, 0)
+					}
+				}
+				ks = append(ks, pdf.Name(b))
+			}
+			grid = append(grid, ks)
+		}
+	}
+	return small, grid
+}
+
 func intProbes(t *runner[pdf.Integer], keys []pdf.Integer, nPresent, nAbsent int) []pdf.Integer {
 	e := t.e
 	var ps []pdf.Integer
@@ -1636,8 +1697,20 @@ func (t *runner[K]) history(set func(*runner[K], int, int) []K, probes func(*run
 // ------------------------------------------------------------------- main
 
 func runKind[K cmp.Ordered](e *common.Env, kd *kind[K], id *int,
-	set func(*runner[K], int, int) []K, probes func(*runner[K], []K, int, int) []K) {
+	set func(*runner[K], int, int) []K, probes func(*runner[K], []K, int, int) []K, corpus func(bool) (small, grid [][]K)) {
 	t := &runner[K]{e: e, kd: kd, id: id}
+
+	// keys of extreme magnitude and neighbours at extreme distances: the hand-picked sets in every
+	// writer configuration and through both entry points, the grid once each
+	small, grid := corpus(e.Thorough)
+	for _, ks := range small {
+		for ci, cfg := range cfgs {
+			t.testWrite(ks, probes(t, ks, 70, 10), kd.writeMap != nil && ci%2 == 1, "extreme-keys", cfg)
+		}
+	}
+	for i, ks := range grid {
+		t.testWrite(ks, probes(t, ks, 40, 10), kd.writeMap != nil && i%3 == 2 && len(ks) < 1000, "extreme-gaps", t.nextCfg())
+	}
 
 	// sizes at the boundaries of the fan-out and its powers; then random sizes
 	bsizes := []int{0, 1, 2, 3, 62, 63, 64, 65, 66, 126, 127, 128, 129, 130, 191, 192, 193, 1000}
@@ -1725,8 +1798,8 @@ func runKind[K cmp.Ordered](e *common.Env, kd *kind[K], id *int,
 func main() {
 	e := common.New(17)
 	id := 0
-	runKind(e, nameKind, &id, nameSet, nameProbes)
-	runKind(e, numKind, &id, intSet, intProbes)
+	runKind(e, nameKind, &id, nameSet, nameProbes, nameCorpus)
+	runKind(e, numKind, &id, intSet, intProbes, intCorpus)
 	e.Finish("key sets: every size 0..200 (thorough 0..600), sizes at the boundaries of 64, 63*64 and 64*64 up to 6000 (thorough 20000), random sizes; "+
 		"names over arbitrary bytes (empty name, prefixes and 00/FF extensions of each other, all strings over {00,FF}, key%04d), integers incl. int64 extremes, dense and sparse; "+
 		"probes: present keys (all for small sets), below the minimum, above the maximum, immediate successors, prefixes, random; "+
